@@ -137,6 +137,14 @@ class PhaseField(_Simu):
             elementsField = ["Svm", "Stress"]
         return nodesField, elementsField
 
+    @_Simu.mesh.setter  # type: ignore [attr-defined]
+    def mesh(self, mesh: Mesh):
+        _Simu.mesh.fset(self, mesh)  # type: ignore [attr-defined]
+        # the fields are re-initialised on a new mesh: the history field restarts with them
+        # (its shape alone does not tell a new mesh from the old one)
+        self.__psiP_e_pg = np.empty(0, dtype=float)
+        self.__old_psiP_e_pg = np.empty(0, dtype=float)
+
     def Get_unknowns(self, problemType=None) -> list[str]:
         if problemType == self.ProblemTypes.damage:
             return ["d"]
